@@ -2789,6 +2789,31 @@ class PerspConvex(Convex):
                           right.affine_in, right.affine_scale, right.affine_out,
                           right.multiplier, right.xtype)
 
+    def __call__(self):
+
+        if self.model.mtype != 'R':
+            raise ValueError('Unsupported affine expression.')
+
+        if self.model.solution is None:
+            raise SyntaxError('No available solution!')
+
+        value_in = self.affine_in()
+        scale = self.affine_scale
+        if isinstance(scale, (Vars, VarSub, Affine)):
+            scale = scale()
+        value_out = self.affine_out
+        if isinstance(value_out, Affine):
+            value_out = value_out()
+
+        if self.xtype == 'X':
+            output = self.multiplier*self.sign*scale*np.exp(value_in/scale)
+        elif self.xtype == 'L':
+            output = - self.multiplier*self.sign*scale*np.log(value_in/scale)
+        else:
+            raise ValueError('Unsupported convex/concave expression.')
+
+        return output + value_out
+
 
 class RoAffine:
     """
